@@ -50,7 +50,7 @@ try:
     b = build('')
     if b.returncode: sys.exit('pristine build failed: ' + b.stderr[-500:])
     d0 = demo()
-    exp = open(f'{mutdir}/demo.expected').read() if os.path.exists(f'{mutdir}/demo.expected') else None
+    exp = open(f'{mutdir}/demo.expected', errors='replace').read() if os.path.exists(f'{mutdir}/demo.expected') else None
     meta['demo_unchanged_matches_expected'] = (d0 is not None and exp is not None and d0.strip() == exp.strip())
     a = sh(f'git apply {mutdir}/patch.diff', cwd=wt)
     if a.returncode: sys.exit('patch does not apply: ' + a.stderr)
